@@ -192,7 +192,7 @@ Definition bl_as_bv (n : Z) (a : bl) : bv :=
 
 (* ------------------------------------------------------------------ HalmosBitVec methods *)
 Definition bv_is_zero (n : Z) (a : bv) : bl :=
-  match a with Cv x => BC (x =? 0) | Sv t => BS (BEq t (TConst n 0)) end.
+  match a with Cv x => BC (g_is_zero_1 x) | Sv t => BS (BEq t (TConst n 0)) end.
 
 Definition bv_add (n : Z) (a b : bv) : bv :=
   match a, b with
@@ -303,7 +303,7 @@ Definition bv_mod (n : Z) (abs : option uf) (a b : bv) : res bv :=
            | Cv x => py_arith n (rd_mod_1 x y) (r_mod_1 x y)          (* lhs % rhs *)
            | Sv t =>
                Ok (if is_power_of_two y then
-                     let bitsize := bit_length y - 1 in
+                     let bitsize := e_mod_bitsize (bit_length y) in
                      Sv (TZext (n - bitsize) (TExtract (bitsize - 1) 0 t))
                    else slow)
            end
@@ -369,7 +369,7 @@ Definition bv_addmod (n : Z) (abs : option uf) (a b m : bv) : res bv :=
       if g_addmod_1 z then Ok (mk_int n 0)
       else py_arith n (rd_addmod_1 z y x) (r_addmod_1 z y x)      (* (x + y) % z *)
   | _, _, _ =>
-      let n2 := n + 8 in
+      let n2 := e_addmod_newsize n in
       let r1 := bv_add n2 (bv_resize n n2 a) (bv_resize n n2 b) in
       bind_bv (bv_mod n2 abs r1 (bv_resize n n2 m)) (bv_resize n2 n)
   end.
@@ -380,7 +380,7 @@ Definition bv_mulmod (n : Z) (mabs dabs : option uf) (a b m : bv) : res bv :=
       if g_mulmod_1 z then Ok (mk_int n 0)
       else py_arith n (rd_mulmod_1 z y x) (r_mulmod_1 z y x)      (* (x * y) % z *)
   | _, _, _ =>
-      let n2 := n * 2 in
+      let n2 := e_mulmod_newsize n in
       let r1 := bv_mul n2 mabs (bv_resize n n2 a) (bv_resize n n2 b) in
       bind_bv (bv_mod n2 dabs r1 (bv_resize n n2 m)) (bv_resize n2 n)
   end.
@@ -423,7 +423,7 @@ Definition bv_slt (n : Z) := bv_cmp Slt (fun x y => g_slt_1 (to_signed x n) (to_
 Definition bv_sgt (n : Z) := bv_cmp Sgt (fun x y => g_sgt_1 (to_signed x n) (to_signed y n)) n.
 Definition bv_eq (n : Z) (a b : bv) : bl :=
   match a, b with
-  | Cv x, Cv y => BC (x =? y)
+  | Cv x, Cv y => BC (g_eq_1 y x)
   | _, _ => BS (BEq (z3_of n a) (z3_of n b))
   end.
 
@@ -519,6 +519,7 @@ Definition call_meth (sebc : Z) (m : meth) (kw : list ufn) (recv : pv) (args : l
                  end
       | _ => Err ETypeError
       end
+  | PV (VBV _), [PV (VBool _)] => Err EAttribute      (* other._size / other.size: no such attribute *)
   | PV (VBV x), [PI z] =>
       match m with
       | Msignextend => lift (bv_signextend x z)
